@@ -153,6 +153,8 @@ impl<T: ?Sized> Mutex<T> {
     ))]
     fn sys_lock(&self) {
         loop {
+            #[cfg(aranya_verif)]
+            crate::verif::point("mutex.cas_lock.cas");
             if likely!(
                 self.key
                     .compare_exchange(
@@ -165,6 +167,8 @@ impl<T: ?Sized> Mutex<T> {
             ) {
                 return;
             }
+            #[cfg(aranya_verif)]
+            let _ = crate::verif::sched_yield();
             core::hint::spin_loop();
         }
     }
@@ -181,6 +185,8 @@ impl<T: ?Sized> Mutex<T> {
         use crate::mutex::macos::futex_wait;
 
         // Fast path: the mutex is unlocked.
+        #[cfg(aranya_verif)]
+        crate::verif::point("mutex.lock.fast_cas");
         let mut wait = match self.key.compare_exchange(
             Self::MUTEX_UNLOCKED,
             Self::MUTEX_LOCKED,
@@ -194,7 +200,11 @@ impl<T: ?Sized> Mutex<T> {
         const PASSIVE_SPIN: i32 = 5;
         loop {
             for _ in 0..PASSIVE_SPIN {
+                #[cfg(aranya_verif)]
+                crate::verif::point("mutex.lock.spin_load");
                 while self.key.load(Ordering::Relaxed) == Self::MUTEX_UNLOCKED {
+                    #[cfg(aranya_verif)]
+                    crate::verif::point("mutex.lock.spin_cas");
                     if likely!(
                         self.key
                             .compare_exchange(
@@ -205,7 +215,13 @@ impl<T: ?Sized> Mutex<T> {
                             )
                             .is_ok()
                     ) {
+                        #[cfg(aranya_verif)]
+                        crate::verif::probe("mutex.lock.spin_acquired");
                         return;
+                    }
+                    #[cfg(aranya_verif)]
+                    if crate::verif::sched_yield() {
+                        continue;
                     }
                     // SAFETY: FFI call, no invariants.
                     unsafe { libc::sched_yield() };
@@ -213,7 +229,11 @@ impl<T: ?Sized> Mutex<T> {
             }
 
             // Could not grab the lock; go to sleep.
+            #[cfg(aranya_verif)]
+            crate::verif::point("mutex.lock.swap_sleeping");
             if self.key.swap(Self::MUTEX_SLEEPING, Ordering::SeqCst) == Self::MUTEX_UNLOCKED {
+                #[cfg(aranya_verif)]
+                crate::verif::probe("mutex.lock.swap_acquired");
                 return;
             }
             wait = Self::MUTEX_SLEEPING;
@@ -227,6 +247,8 @@ impl<T: ?Sized> Mutex<T> {
         not(any(target_os = "linux", target_os = "macos"))
     ))]
     pub(crate) fn sys_unlock(&self) -> Result<(), Infallible> {
+        #[cfg(aranya_verif)]
+        crate::verif::point("mutex.cas_unlock.swap");
         self.key.swap(Self::MUTEX_UNLOCKED, Ordering::SeqCst);
         Ok(())
     }
@@ -242,6 +264,8 @@ impl<T: ?Sized> Mutex<T> {
         #[cfg(target_os = "macos")]
         use crate::mutex::macos::futex_wake;
 
+        #[cfg(aranya_verif)]
+        crate::verif::point("mutex.unlock.swap");
         match self.key.swap(Self::MUTEX_UNLOCKED, Ordering::SeqCst) {
             Self::MUTEX_UNLOCKED => ::buggy::bug!("unlock of locked mutex"),
             Self::MUTEX_SLEEPING => futex_wake(&self.key, 1)?,
@@ -280,6 +304,10 @@ mod linux {
     }
 
     pub fn futex_wait(uaddr: &AtomicU32, val: u32) {
+        #[cfg(aranya_verif)]
+        if crate::verif::futex_wait(uaddr, val) {
+            return;
+        }
         let _ = futex(
             ptr::from_ref::<AtomicU32>(uaddr),
             FUTEX_WAIT,
@@ -291,6 +319,10 @@ mod linux {
     }
 
     pub fn futex_wake(uaddr: &AtomicU32, cnt: u32) -> Result<(), Bug> {
+        #[cfg(aranya_verif)]
+        if crate::verif::futex_wake(uaddr, cnt) {
+            return Ok(());
+        }
         futex(
             ptr::from_ref::<AtomicU32>(uaddr),
             FUTEX_WAKE,
@@ -325,6 +357,10 @@ mod macos {
     const ULF_NO_ERRNO: u32 = 0x01000000;
 
     pub fn futex_wait(addr: &AtomicU32, val: u32) {
+        #[cfg(aranya_verif)]
+        if crate::verif::futex_wait(addr, val) {
+            return;
+        }
         loop {
             // SAFETY: FFI call, no invariants.
             let rc = unsafe {
@@ -345,6 +381,10 @@ mod macos {
     }
 
     pub fn futex_wake(addr: &AtomicU32, cnt: u32) -> Result<(), Infallible> {
+        #[cfg(aranya_verif)]
+        if crate::verif::futex_wake(addr, cnt) {
+            return Ok(());
+        }
         loop {
             // SAFETY: FFI call, no invariants.
             let rc = unsafe {
